@@ -26,6 +26,7 @@ EvalE(e, scopes) ==
       [] e.t = "lt"  -> IF Lookup(scopes, e.x) < e.v THEN 1 ELSE 0
       [] e.t = "ge"  -> IF Lookup(scopes, e.x) >= e.v THEN 1 ELSE 0
       [] e.t = "dbl" -> 2 * Lookup(scopes, e.x)
+      [] e.t = "sub" -> Lookup(scopes, e.x) - e.v
       [] OTHER -> UNDEF
 
 \* scope built from attribute locals << <<x, v>>, ... >>
@@ -137,10 +138,16 @@ EvNode(nd, st, d, C) ==
                          !.refs = IF nd.ref > 0 /\ ~st.specs THEN @ \cup {<<IF st.inl > 0 THEN st.inl ELSE nd.id, nd.ref>>} ELSE @,
                          !.unr = Append(@, cp)]
       [] nd.k \in {"g", "cont"} ->
-           LET s0 == [st EXCEPT !.inl = IF @ > 0 THEN -1 ELSE @]
+           \* a group's own attributes (its probe nd.rd) see the enclosing scope
+           LET gv == IF nd.k = "g" /\ nd.rd # "-" THEN Lookup(st.sc, nd.rd) ELSE UNDEF
+               sI == IF nd.k = "g" /\ nd.rd # "-" /\ ~st.specs
+                     THEN [st EXCEPT !.items = Append(@, [id |-> nd.id, v |-> gv, x |-> 0])] ELSE st
+               s0 == [sI EXCEPT !.inl = IF @ > 0 THEN -1 ELSE @]
                s1 == IF nd.k = "g" THEN [s0 EXCEPT !.sc = Append(@, ScopeOf(nd.loc))] ELSE s0
                s2 == EvKids(nd, s1, d + 1, C)
-               cp == [nd EXCEPT !.ch = s2.unr, !.href = IF st.inl > 0 THEN st.inl ELSE 0]
+               cp == [nd EXCEPT !.ch = s2.unr, !.href = IF st.inl > 0 THEN st.inl ELSE 0,
+                                !.rd = IF st.inl # 0 /\ nd.rd # "-" /\ gv # UNDEF THEN "-" ELSE @,
+                                !.val = IF st.inl # 0 /\ nd.rd # "-" THEN gv ELSE @]
            IN [s2 EXCEPT !.sc = IF nd.k = "g" /\ s2.err = "-" THEN SubSeq(@, 1, Len(@) - 1) ELSE @,
                          !.inl = st.inl,
                          !.unr = Append(st.unr, cp)]
